@@ -19,6 +19,24 @@ CHECKS = {
              'live functions tested on a junk stream.',
         design_ref='DESIGN.md §5 C16',
         note='Assumes sum_mwp/prod_mwp are pure (each pair called once by the translator).'),
+    'C09': dict(
+        technique='Lean 4 proof (induction on monomial lists, domination lemma) over a hand model of Polynomial.add/times + differential correspondence',
+        text='Theorems add_eval / times_eval (value at EVERY choice vector is the semiring sum / product, zero when an '
+             'operand has no term), well-formedness, no repeated delta list, no zero term alongside others, proved for all '
+             'well-formed polynomials; semiring facts come from the regenerated C16 tables. The model is tied to the code by '
+             'running both on reachable polynomial pairs each run (sorted monomial sets equal) and the spec predicate is '
+             'evaluated on the implementation outputs over all 3^n choices. "Operands unchanged" is a Python aliasing fact: '
+             'checked by deep snapshots, not proved.',
+        design_ref='DESIGN.md §5 C09',
+        note='Model ignores list positions inside add/times (cursor, k-way merge); compared as sorted sets.'),
+    'C20': dict(
+        technique='Lean 4 proof (case analysis, list induction) over a hand model of MwpBound.bound_poly/bound_str/parse + exact-string correspondence',
+        text='Theorems boundPoly_eval (both formats denote max(x,sum y)+prod z over all naturals), parse_boundStr (round '
+             'trip), significant_iff (significant-only display omits exactly self-only bounds), for ALL name lists. The model '
+             'rendering is compared character for character with pymwp on every triple of disjoint lists up to 3 names (exhaustive) '
+             'and the printed text is evaluated by an independent Lean reader on sampled valuations.',
+        design_ref='DESIGN.md §5 C20',
+        note='Names are identifiers (no , ; + * parentheses).'),
 }
 
 NOT_YET = {}
